@@ -968,3 +968,31 @@ def rule_adjusted_twin(rep, fb, floor=2, name="TWIN.adjusted-local"):
     if n < 2:
         raise AnalysisError("only %d conditions on adjusted member copies found" % n)
     return r.done()
+
+
+# ------------------------------------------------------------------------------------------------
+# the regularised copy of an index replaces the raw one
+
+def rule_regularized_copy_used(rep, fb, floor=2, name="GUARD.regularized-copy"):
+    r = rep.rule(name, "where a method keeps the user's positions `X` and a kernel-made regularised copy `regular_X` (negative positions wrapped, range checked), every later kernel call reads the positions through "
+                 "`regular_X.data()`: `X.data()` still holds the negative values, which the consuming kernels use as they are (x[[0,1,2],[0,-1,-2]] read the wrong row elements); "
+                 "`X.length()` is the same number and may be used", floor=floor)
+    n = 0
+    for f in fb.lib_funcs(inst=False):
+        locs = {d[1] for d in find_all(f["body"], lambda k: k[0] == "decl")}
+        for R in sorted(x for x in locs if x.startswith("regular_") and x[len("regular_"):] in locs):
+            X = R[len("regular_"):]
+            is_data = lambda a, v: a[0] == "mcall" and a[1] == "data" and a[3] == ("var", v)
+            calls = [c for c in find_all(f["body"], lambda k: k[0] == "call" and k[1][0] == "fn" and isinstance(k[2], (list, tuple)))
+                     if any(is_data(a, R) or is_data(a, X) for a in c[2] if isinstance(a, tuple) and a)]
+            producers = [c for c in calls if any(is_data(a, R) for a in c[2]) and any(is_data(a, X) for a in c[2])]
+            if not producers:
+                continue
+            for j, c in enumerate(c for c in calls if c not in producers):
+                n += 1
+                raw = [a for a in c[2] if is_data(a, X)]
+                r.check(not raw, "%s#%s@%s#%d" % (f["qual"], R, str(c[1][1]).split("::")[-1], j + 1), "%s:%d" % (f["file"], c[-1] if isinstance(c[-1], int) else f["line"]),
+                        "%s hands the raw positions `%s.data()` to %s although the regularised copy `%s` exists" % (f["qual"], X, str(c[1][1]).split("::")[-1], R), detail="regularised copy read")
+    if n < 2:
+        raise AnalysisError("only %d kernel calls after a regularised copy found" % n)
+    return r.done()
